@@ -60,11 +60,23 @@ class Analyzer:
         self.funcs = {}  # qualname -> (ast.FunctionDef, module name, class name or None)
         self.by_simple = {}
         self.summaries = {}
+        self.module_mutables = {}  # module name -> names bound at module level to a mutable container
 
     def add_module(self, module):
         src = inspect.getsource(module)
         tree = ast.parse(src)
         mname = module.__name__
+        muts = set()
+        for node in tree.body:
+            tg, val = [], None
+            if isinstance(node, ast.Assign):
+                tg, val = node.targets, node.value
+            elif isinstance(node, ast.AnnAssign) and node.value is not None:
+                tg, val = [node.target], node.value
+            if val is not None and (isinstance(val, (ast.Dict, ast.List, ast.Set, ast.DictComp, ast.ListComp, ast.SetComp)) or (
+                    isinstance(val, ast.Call) and isinstance(val.func, ast.Name) and val.func.id in ('dict', 'list', 'set', 'defaultdict', 'OrderedDict'))):
+                muts |= {t.id for t in tg if isinstance(t, ast.Name)}
+        self.module_mutables[mname] = muts
         for node in tree.body:
             if isinstance(node, ast.FunctionDef):
                 self._add(node, mname, None)
@@ -133,7 +145,9 @@ class Analyzer:
         if a.kwarg:
             env[a.kwarg.arg] = set()  # the ** dict is owned by the callee
         declared_global = set()
-        _Walker(self, s, env, declared_global).run(fnode.body)
+        w = _Walker(self, s, env, declared_global)
+        w.mutables = GLOBAL_MUTABLES | self.module_mutables.get(self.funcs[qual][1] if qual in self.funcs else '', set())
+        w.run(fnode.body)
         return s
 
 
@@ -143,6 +157,7 @@ class _Walker:
         self.s = summary
         self.env = env
         self.glob = declared_global
+        self.mutables = GLOBAL_MUTABLES
 
     # roots of an expression: which parameters it may alias
     def roots(self, e):
@@ -206,7 +221,7 @@ class _Walker:
                 r = self.roots(st.target)
                 if r:
                     self.s.add_write(r, st.lineno, f"augmented assignment to alias '{st.target.id}' (in place for arrays/lists)")
-                if st.target.id in self.glob or st.target.id in GLOBAL_MUTABLES:
+                if st.target.id in self.glob or st.target.id in self.mutables:
                     self.s.globals_written.append((st.target.id, st.lineno, 'augmented assignment'))
             else:
                 self.store(st.target, None, st.lineno)
@@ -277,14 +292,14 @@ class _Walker:
             b = base
             while isinstance(b, (ast.Attribute, ast.Subscript)):
                 b = b.value
-            if isinstance(b, ast.Name) and b.id in GLOBAL_MUTABLES and b.id not in self.env:
+            if isinstance(b, ast.Name) and b.id in self.mutables and b.id not in self.env:
                 self.s.globals_written.append((b.id, lineno, f"{what} to {desc}"))
 
     def expr(self, e):
         for node in ast.walk(e):
             if isinstance(node, ast.Call):
                 self.call(node)
-            elif isinstance(node, ast.Name) and node.id in GLOBAL_MUTABLES and node.id not in self.env:
+            elif isinstance(node, ast.Name) and node.id in self.mutables and node.id not in self.env:
                 self.s.globals_read.add(node.id)
             elif isinstance(node, ast.NamedExpr):
                 self.bind(node.target, self.roots(node.value))
@@ -299,7 +314,7 @@ class _Walker:
             b = f.value
             while isinstance(b, (ast.Attribute, ast.Subscript)):
                 b = b.value
-            if isinstance(b, ast.Name) and b.id in GLOBAL_MUTABLES and b.id not in self.env and f.attr in INPLACE_METHODS:
+            if isinstance(b, ast.Name) and b.id in self.mutables and b.id not in self.env and f.attr in INPLACE_METHODS:
                 self.s.globals_written.append((b.id, c.lineno, f"{f.attr}() on module-level state"))
             if recv:
                 if f.attr in INPLACE_METHODS or inplace_kw:
